@@ -2,6 +2,9 @@ SPECIFICATION Spec
 CONSTANTS
   MaxMix = 2
   MixKeys = "few"
+  MaxSubs = 0
+  MaxSubMix = 0
+  SubErrLen = 1
   Export = FALSE
 INVARIANT OrderIrrelevant
 CHECK_DEADLOCK FALSE
